@@ -10,7 +10,7 @@ def decoy_only_files(rng, n):
         b, exp = gen.cfl_file(rng, bool(rng.getrandbits(1)), features={"comment", "decoy", "strlit", "plain", "blank"})
         assert exp == []
         out.append(b)
-    tails = ["// info!(\"x\")", "/* warn!(\"x\") */", "/// error!(\"x\")", "fn f(){} // info!(\"x\")", "//", "/**/", "/* info!(\"x\")"]
+    tails = ["// info!(\"x\")", "/* warn!(\"x\") */", "/// error!(\"x\")", "fn f(){} // info!(\"x\")", "//", "/**/"]
     out += [t.encode() for t in tails]
     return out
 
